@@ -185,6 +185,44 @@ def field_models_2d(c, geom, layout):
             c.eq('LinearModel:matrix_times_parameters', M @ p, spec)
 
 
+def same_class_geometries(c, kind):
+    """domain and range geometry of the SAME class and parameter shape but not equal (two images of transposed shapes and different orders; two step
+    expansions that differ only in the projection option): the model's callable is plain numpy arithmetic, which keeps the array subclass - the output of a
+    CUQIarray input therefore still carries the DOMAIN geometry - and the output must nevertheless be converted with the RANGE geometry: all representations
+    of the input give the same parameters (bounded stand-in: native)"""
+    if kind == 'Image2D_transposed_orders':
+        gd = Image2D((2, 3), order='C'); gr = Image2D((3, 2), order='F')
+        Lm = np.array([[c.real(f'L{i}{j}') for j in range(2)] for i in range(2)]); Rm = np.array([[c.real(f'R{i}{j}') for j in range(3)] for i in range(3)])
+        fwd = lambda X: Rm @ X.T @ Lm; adj = lambda V: (Rm.T @ V @ Lm.T).T
+        n, m = 6, 6
+        dense = lambda p: (Rm @ p.reshape((2, 3), order='C').T @ Lm).ravel(order='F')
+        dense_adj = lambda d: ((Rm.T @ d.reshape((3, 2), order='F') @ Lm.T).T).ravel(order='C')
+        model = LinearModel(fwd, adj, gr, gd)
+    else:
+        grid = np.linspace(0, 1, 6)
+        gd = StepExpansion(grid, n_steps=3, fun2par_projection='mean'); gr = StepExpansion(grid, n_steps=3, fun2par_projection='max')
+        w = np.array([1.0, 2.0, -1.0, 0.5, 3.0, 1.5]) + 0.1 * np.array([c.real(f'w{i}') for i in range(6)])
+        fwd = lambda f: f * w
+        n, m = 3, 3
+        dense = lambda p: np.asarray(gr.fun2par(w * np.asarray(gd.par2fun(p), dtype=float)))
+        model = Model(fwd, gr, gd); dense_adj = None
+    p = np.array([c.real(f'p{i}') for i in range(n)])
+    spec = dense(p)
+    c.eq('forward_of_parameters', np.asarray(model.forward(p)), spec, tol=1e-12)
+    oa = model.forward(CUQIarray(p.copy(), is_par=True, geometry=gd))
+    c.eq('forward_of_cuqiarray_parameters', np.asarray(oa), spec, tol=1e-12)
+    c.holds('output_carries_the_range_geometry', isinstance(oa, CUQIarray) and oa.geometry == gr and not (oa.geometry == gd))
+    of = model.forward(CUQIarray(np.asarray(gd.par2fun(p)), is_par=False, geometry=gd))
+    c.eq('forward_of_cuqiarray_function_values', np.asarray(of), spec, tol=1e-12)
+    c.eq('forward_of_samples_column', model.forward(Samples(np.stack([p, p], axis=-1), gd)).samples[:, 1], spec, tol=1e-12)
+    if dense_adj is not None:
+        d = np.array([c.real(f'd{i}') for i in range(m)])
+        c.eq('adjoint_of_parameters', np.asarray(model.adjoint(d)), dense_adj(d), tol=1e-12)
+        c.eq('adjoint_of_cuqiarray_parameters', np.asarray(model.adjoint(CUQIarray(d.copy(), is_par=True, geometry=gr))), dense_adj(d), tol=1e-12)
+        M = model.get_matrix(); M = M.toarray() if hasattr(M, 'toarray') else np.asarray(M)
+        c.eq('matrix_times_parameters_is_forward_of_cuqiarray', M @ p, np.asarray(oa), tol=1e-12)
+
+
 def range_not_identity(c, n=2):
     A = c.mat('A', 2, n)
     model = Model(lambda x: A @ x, MappedGeometry(Continuous1D(2), map=lambda v: v ** 2), n, jacobian=lambda x: A)
@@ -294,6 +332,9 @@ def jobs(tier):
     # PDE-based models (assemble / solve / observe and the gradient dispatch through the PDE's Jacobian or gradient hook): contracts live with C18
     from contracts import C18 as _c18
     J += [j for j in _c18.jobs(tier) if j.id.startswith('PDEModel')]
+    for kind in ('Image2D_transposed_orders', 'Step_projections'):
+        J.append(Job(f'same_class_geometries:{kind}', lambda c, k=kind: same_class_geometries(c, k), 'B',
+                     ['cuqi.model._model:Model._2par', 'cuqi.model._model:Model._2fun', 'cuqi.geometry._geometry:Geometry.__eq__', 'cuqi.geometry._geometry:Geometry._all_values_equal'], nnum=3))
     for geom in ('Continuous2D', 'Image2D:C', 'Image2D:F'):
         for layout in ('C', 'F', 'T'):
             J.append(Job(f'field_models_2d:geometry={geom}:memory_layout={layout}', lambda c, g=geom, l=layout: field_models_2d(c, g, l), 'B',
